@@ -54,7 +54,9 @@ class HTTP(BaseComponent):
         self._parser.execute(data, len(data))
         if (
             self._parser.is_message_complete()
-            or self._parser.is_upgrade()
+            # (only a 101 response ends with its headers because of an
+            # upgrade; "Connection: Upgrade" on any other response is an offer)
+            or (self._parser.is_upgrade() and self._parser.get_status_code() == 101)
             or (self._parser.is_headers_complete() and self._parser._clen == 0)
         ):
             status = self._parser.get_status_code()
